@@ -384,6 +384,69 @@ func (env *SpecEnv) typeArg(e Expr) types.Type {
 	return nil
 }
 
+// specCallEnv builds the environment in which the body of a spec function is evaluated.
+func (env *SpecEnv) specCallEnv(sf *SpecFunc, e *ECall) (*SpecEnv, *SpecEnv) {
+	ex := env.ex
+	if len(e.Args) != len(sf.Params) {
+		env.fail("spec function %s takes %d arguments", sf.Name, len(sf.Params))
+	}
+	if env.depth > 20 {
+		env.fail("spec function recursion in %s", sf.Name)
+	}
+	vars := map[string]*Val{}
+	sfPkg := ex.ld.typesPkg(sf.Pkg)
+	tenv := &SpecEnv{ex: ex, pkg: sfPkg}
+	for i, p := range sf.Params {
+		v := env.eval(e.Args[i])
+		pt := tenv.specType(p.Type)
+		nv := *v
+		if pt != refType {
+			nv.Typ = pt
+			if sortOfType(pt) != v.T.Sort && v.Fields == nil {
+				env.fail("argument %d of %s: sort %s does not fit parameter type %s", i, sf.Name, v.T.Sort, p.Type)
+			}
+		}
+		vars[p.Name] = &nv
+	}
+	n := &SpecEnv{ex: ex, st: env.st, vars: vars, cur: env.cur, old: env.old, pkg: sfPkg, nextOld: env.nextOld, depth: env.depth + 1}
+	return n, tenv
+}
+
+type namedTerm struct {
+	name string
+	t    Term
+	src  string
+}
+
+// conjuncts splits a boolean spec expression into its top-level conjuncts, looking through
+// spec functions, so that each becomes its own (named) obligation.
+func (env *SpecEnv) conjuncts(e Expr, prefix string) []namedTerm {
+	switch x := e.(type) {
+	case *EBin:
+		if x.Op == "&&" {
+			l := env.conjuncts(x.X, prefix)
+			r := env.conjuncts(x.Y, prefix)
+			return append(l, r...)
+		}
+	case *ECall:
+		if sf, ok := env.ex.ct.Specs[x.Fn]; ok {
+			if b, isBin := sf.Body.(*EBin); isBin && b.Op == "&&" {
+				n, _ := env.specCallEnv(sf, x)
+				return n.conjuncts(sf.Body, prefix+x.Fn+".")
+			}
+		}
+	case *EOld:
+		n := *env
+		n.cur = env.old
+		return n.conjuncts(x.X, prefix)
+	}
+	v := env.eval(e)
+	if v.T.Sort != SBool {
+		env.fail("%s is not boolean", e)
+	}
+	return []namedTerm{{prefix, v.T, e.String()}}
+}
+
 func (env *SpecEnv) call(e *ECall) *Val {
 	ex := env.ex
 	// ghost maps
@@ -399,6 +462,16 @@ func (env *SpecEnv) call(e *ECall) *Val {
 	}
 	// spec functions (macro expansion)
 	if sf, ok := ex.ct.Specs[e.Fn]; ok {
+		n, tenv := env.specCallEnv(sf, e)
+		r := n.eval(sf.Body)
+		if sf.Ret != "" {
+			nv := *r
+			nv.Typ = tenv.specType(sf.Ret)
+			return &nv
+		}
+		return r
+	}
+	if sf, ok := ex.ct.Specs[e.Fn]; ok && false {
 		if len(e.Args) != len(sf.Params) {
 			env.fail("spec function %s takes %d arguments", sf.Name, len(sf.Params))
 		}
